@@ -13,7 +13,7 @@ SHARDS = {"quick": 16, "thorough": 16}
 WATCHDOG = {"quick": 1800, "thorough": 7200}
 CASES = {"quick": 150, "thorough": 2000}
 FLOORS = {
-    "quick": {"cases[trained on a series of another length]": 311, "distinct_nontrivial": 670, "segments_checked": 4500, "cases_with_adjacent_flagged": 570,
+    "quick": {"cases[wrapped detector reconfigured after the anomaliser was built]": 400, "cases[trained on a series of another length]": 311, "distinct_nontrivial": 670, "segments_checked": 4500, "cases_with_adjacent_flagged": 570,
               "cases[ScriptedChangeDetector]": 250, "cases[PELT]": 230, "wrapped_untouched_checks": 940},
     "thorough": {"distinct_nontrivial": 4000, "segments_checked": 50000},
 }
@@ -107,12 +107,32 @@ def exec_case(ctx, r):
             if r.get("prefit") is not None:
                 wrapped.fit(np.asarray(r["prefit"], dtype=float))
                 ctx.stat("cases[wrapped detector pre-fitted by the user]")
-            before = params_digest(wrapped)
-            fitted_before = _fitted_state(wrapped)
             from skchange.anomaly_detectors.anomalisers import StatThresholdAnomaliser
 
+            # The wrapped detector gets its real configuration only AFTER the anomaliser was built around it (through
+            # the anomaliser's nested set_params, or on the object the caller still holds): the segments must be
+            # those of the detector as configured when fit is called.
+            late = None
+            hs = int(abs(float(np.sum(X[:3]))) * 1e6) % 10
+            if hs < 4 and r.get("prefit") is None:
+                ik = inner_spec["kw"]
+                for name_, alt in (("changepoints", [1]), ("bandwidth", (ik.get("bandwidth") or 0) + 3),
+                                   ("penalty_scale", 7.5), ("threshold_scale", 9.0)):
+                    if name_ in ik and ik[name_] is not None and ik[name_] != alt:
+                        late = (name_, ik[name_])
+                        wrapped = build({"cls": inner_spec["cls"], "kw": dict(ik, **{name_: alt})})
+                        break
             det = StatThresholdAnomaliser(wrapped, stat=FUNCTIONS[kw["stat"]["fn"]],
                                           stat_lower=kw["stat_lower"], stat_upper=kw["stat_upper"])
+            if late is not None:
+                if hs % 2:
+                    det.set_params(**{"change_detector__" + late[0]: late[1]})
+                    wrapped = det.change_detector
+                else:
+                    wrapped.set_params(**{late[0]: late[1]})
+                ctx.stat("cases[wrapped detector reconfigured after the anomaliser was built]")
+            before = params_digest(wrapped)
+            fitted_before = _fitted_state(wrapped)
             train = data
             if r.get("train") is not None:
                 T = np.asarray(r["train"], dtype=float)
